@@ -18,19 +18,31 @@ IMPL = 'harness/impl/c01_impl.py'
 ALLOWED_AXIOMS = []
 ASSUMPTIONS = [
     'theorems are about coq/Model/Sighash.v: lib_* mirrors Transaction.signature / signature_hash / signature_segwit / '
-    'raw(sign_id, hash_type, "legacy") / Input.update_scripts / sign / verify of bitcoinlib/transactions.py; spec_* is '
-    'Bitcoin Core SignatureHash (legacy, all hash types, no OP_CODESEPARATOR) and the BIP143 text; transaction records and '
-    'serializers are those of Model/TxCodec.v (C06), CompactSize from Model/Wire.v (C18)',
+    'raw(sign_id, hash_type, "legacy") / Input.update_scripts / sign / verify of bitcoinlib/transactions.py WITH the two '
+    'repairs fixes/C01-1 (BIP143 hashOutputs SINGLE/NONE) and fixes/C01-2 (input selected by list position); the code '
+    'before each repair is kept in the model behind a flag (lib_*_at) and refuted by concrete witnesses; spec_* is '
+    'Bitcoin Core SignatureHash (legacy, all hash types, no OP_CODESEPARATOR) and the BIP143 text; transaction records '
+    'and serializers are those of Model/TxCodec.v (C06), CompactSize from Model/Wire.v (C18)',
+    'domain of the theorems (wf_stx): 32-bit version/locktime/sequence/vout/hash type, amounts in (0, 2^64) (amount 0 is '
+    'refused by the library: zero_value_refused), keys of 33 or 65 bytes, 1 <= m <= 16, <= 16 keys, no output script '
+    'equal to the single byte 00 (C06 single_zero_byte_item: zero_byte_script_refuted); legacy path: hash types '
+    'treated like SIGHASH_ALL only (legacy_non_all_refuted; known finding legacy_non_all_hashtype)',
     'tie to /repo: SIGHASH_* constants are regenerated from config.py on every run (Gen/GenConsts.v) and used by the lib '
-    'model; everything else by differential correspondence of the PREIMAGE bytes (Transaction.signature) and '
-    'signature_hash against the extracted model, through the public API and through Transaction.parse of the signed bytes',
-    'the double SHA256 and HASH160 are parameters of every theorem (any functions; length 32 is the only premise of '
-    'preimage_commits); the instantiated statements use Crypto/Sha256.v and Crypto/Ripemd160.v, which are validated '
-    'against hashlib by the correspondence, not proved equal to FIPS 180-4',
-    'preimage_commits stops at the equality of the three inner hashes (hashPrevouts, hashSequence, hashOutputs): going '
-    'further needs collision resistance, which is not assumed; for equal inner PREIMAGES the lists are proved equal',
+    'model; everything else by differential correspondence of the PREIMAGE bytes (Transaction.signature) against the '
+    'extracted model and of signature_hash against hashlib, through the public API and through Transaction.parse of '
+    'the signed bytes (values, and the key of a P2PK input, supplied as a parsed transaction requires)',
+    'the double SHA256 and HASH160 are parameters of every theorem (any functions; output lengths 32 / 20 are the only '
+    'premises); the instantiated statement digest_ok_sha256 uses Crypto/Sha256.v and Crypto/Ripemd160.v, which are '
+    'validated against hashlib by the correspondence, not proved equal to FIPS 180-4',
+    'preimage_commits stops at the equality of the three inner hashes (hashPrevouts, hashSequence, hashOutputs); '
+    'preimage_commits_or_collision continues constructively (lists equal, or an explicit collision of H); collision '
+    'resistance is never assumed',
+    'bare multisig: update_scripts has no branch for it; reachable only with strict=False and the locking script passed '
+    'by the caller (Script(script_types=["multisig"]).serialize()) — the digest is then the consensus one, but the '
+    'library never builds the scriptSig (C02/C10 territory); excluded from the parse and signed streams',
     'not modelled: coinbase inputs, OP_CODESEPARATOR/FindAndDelete, taproot; key objects (a key is its serialized bytes); '
-    'ECDSA itself (C13) — signatures are checked by the harness verifier, not in Coq',
+    'ECDSA itself (C13) — the signatures embedded in Transaction.raw() are checked by the harness verifier '
+    '(own parser + fastecdsa called directly + pure-Python secp256k1), not in Coq',
 ]
 RULE = ('corpus (BIP143 published examples) + structured stream: transactions with 1..6 inputs of mixed kinds, every input '
         'index, hash types 1,2,3,0x81,0x82,0x83 (+ odd ones) on the segwit path, boundary values/sequences/versions, '
@@ -566,12 +578,12 @@ def gen_cases(rng, tier):
     tx = gen_tx(rng, ['p2wpkh', 'p2pkh'], sw=False)       # segwit path on a legacy transaction: refused
     emit(tx, 'api', 'legacytx_segwit_input')
     # ---- mixed kinds, 1..6 inputs, every index
-    for r in range(3000 if big else 150):
+    for r in range(8000 if big else 450):
         n = rng.randrange(1, 7)
         kinds = [rng.choice(KINDS) for _ in range(n)]
         tx = gen_tx(rng, kinds)
         emit(tx, 'api', 'mixed')
-    for r in range(1500 if big else 70):
+    for r in range(4000 if big else 220):
         n = rng.randrange(1, 7)
         kinds = [rng.choice([k for k in KINDS if k != 'multisig']) for _ in range(n)]
         emit(gen_tx(rng, kinds), 'parse', 'mixed_parse', all_ht=False)
@@ -617,11 +629,10 @@ def gen_cases(rng, tier):
         tok = tx_tok(tx)
         for p, x in enumerate(tx['ins']):
             cs_.append(pre_case('perm_index', 'api', tok, p, 1, WT_OF[x['kind']]))
-            cs_.append(Case('perm_vdig', 'vdig %s %d 1' % (tok, p)))
         if all(x['kind'] != 'multisig' for x in tx['ins']):
             cs_.append(Case('perm_signed', 'signed ' + tok))
     # ---- signed through the library, signatures checked by the independent verifier
-    for _ in range(1500 if big else 120):
+    for _ in range(3000 if big else 150):
         n = rng.randrange(1, 6)
         kinds = [rng.choice([k for k in KINDS if k != 'multisig']) for _ in range(n)]
         tx = gen_tx(rng, kinds)
